@@ -63,6 +63,10 @@ def generate(ctx):
 # --------------------------------------------------------------------------
 # real implementation helpers
 # --------------------------------------------------------------------------
+def srt(xs):
+    return sorted(xs, key=repr)
+
+
 def _cls(kind):
     from cogent3.core import annotation_db as adb
 
@@ -109,8 +113,8 @@ def canon_rec(r, attrs=False):
 def real_query(db, q, records=False):
     kw = {k: v for k, v in q.items() if v is not None}
     if records:
-        return sorted(canon_rec(r) for r in db.get_records_matching(**kw))
-    return sorted(canon_feature(f) for f in db.get_features_matching(**kw))
+        return srt(canon_rec(r) for r in db.get_records_matching(**kw))
+    return srt(canon_feature(f) for f in db.get_features_matching(**kw))
 
 
 # --------------------------------------------------------------------------
@@ -371,8 +375,8 @@ def run_case(case, scratch, out=None, rng=None, n_windows=60, queries=None, tag=
         return [("building the db raised", dict(case=case), "a db", repr(e), f"build-raised:{src}:{type(e).__name__}")]
     intent = case["intent"]
     # (1) the stored record list is what was put in
-    got = sorted(canon_rec(r) for r in db.get_records_matching())
-    want = sorted(canon_rec(r) for r in intent)
+    got = srt(canon_rec(r) for r in db.get_records_matching())
+    want = srt(canon_rec(r) for r in intent)
     if got != want:
         blk = "blocks" if case.get("lines_per_block") else "oneblock"
         split = _ids_split_over_blocks(case) if case["how"] == "gff" else False
@@ -386,7 +390,7 @@ def run_case(case, scratch, out=None, rng=None, n_windows=60, queries=None, tag=
     if queries is None:
         queries = gen_queries(rng, intent, n_windows)
     for q in queries:
-        want = sorted(canon_feature(r) for r in oracle_select(intent, q))
+        want = srt(canon_feature(r) for r in oracle_select(intent, q))
         try:
             got = real_query(db, q)
         except Exception as e:  # noqa: BLE001
@@ -406,7 +410,7 @@ def run_case(case, scratch, out=None, rng=None, n_windows=60, queries=None, tag=
             continue
         # full records (start/stop columns) and counts
         if q_mode(q) != "none" or out is None or out["evaluations"] % 7 == 0:
-            wantr = sorted(canon_rec(r) for r in oracle_select(intent, q))
+            wantr = srt(canon_rec(r) for r in oracle_select(intent, q))
             try:
                 gotr = real_query(db, q, records=True)
             except Exception as e:  # noqa: BLE001
@@ -489,10 +493,10 @@ def run_multiset_case(mc, scratch, out=None, tag="ms"):
         elif op[0] == "subset":
             q = op[1]
             kw = {k: v for k, v in q.items() if v is not None}
-            want = sorted((canon_rec(r) for r in oracle_select(mc["a"]["intent"], q)), key=repr)
+            want = srt(canon_rec(r) for r in oracle_select(mc["a"]["intent"], q))
             sig = f"subset:{mc['a']['kind']}:{q_mode(q)}:{'cols' if q_cols(q) != '-' else 'window-only' if q_mode(q) != 'none' else 'no-args'}"
             c = a.subset(**kw)
-            got = sorted((canon_rec(r) for r in c.get_records_matching()), key=repr)
+            got = srt(canon_rec(r) for r in c.get_records_matching())
             if type(c) is not type(a):
                 fails.append(("subset changed the db class", inp, type(a).__name__, type(c).__name__, sig + ":class"))
         else:
@@ -557,7 +561,7 @@ def spec_check(ctx, budget):
         bump(out, "source", f"{kind}:{how}")
         bump(out, "n_records", len(case["intent"]))
         if how == "gff":
-            bump(out, "lines_per_block", case["lines_per_block"])
+            bump(out, "lines_per_block", str(case["lines_per_block"]))
         for what, inp, want, got, sig in run_case(case, scratch, out, rng, n_windows=40 if budget <= 1 else 80, tag=f"s{i}"):
             add_failure(out, "spec", what, inp, want, got, sig=sig)
         if len(out["samples"]) < 3:
@@ -704,7 +708,7 @@ def correspondence(ctx):
         batch.append(("queries", dict(db=dj, qs=[_model_q(q) for q in qs])))
         meta.append((kind, how, dj, qs, real_f, real_r))
         # num_matches
-        nq = [q for q in qs if q_mode(q) == "none"]
+        nq = [q for q in qs if q_mode(q) == "none" and q.get("attributes") is None]
         batch.append(("nummatches", dict(db=dj, qs=[_model_q(q, wrap_attr=False) for q in nq])))
         meta.append(("num", nq, [db.num_matches(**{k: v for k, v in q.items() if v is not None and k != "allow_partial"}) for q in nq], dj))
     replies = ctx.driver.batch(batch)
@@ -722,8 +726,8 @@ def correspondence(ctx):
             out["evaluations"] += 1
             modc = [canon_feature(r) for r in mod]
             bump(out, "corr_window_mode", q_mode(q))
-            if sorted(modc) != sorted(rf) or len(mod) != rr:
-                add_failure(out, "corr", "getMatching model differs from get_features_matching", dict(db=dj, q=q), sorted(modc), sorted(rf), confirmed=False)
+            if srt(modc) != srt(rf) or len(mod) != rr:
+                add_failure(out, "corr", "getMatching model differs from get_features_matching", dict(db=dj, q=q), srt(modc), srt(rf), confirmed=False)
             else:
                 if modc != rf:
                     bump(out, "row_order_differs")
@@ -771,7 +775,7 @@ def correspondence(ctx):
         strand = ll.strand
         real = dict(spans=_ispans(ll.get_coordinates()), strand=None if not strand else "-" if strand == -1 else "+")
         out["evaluations"] += 1
-        bump(out, "gb_strand", real["strand"])
+        bump(out, "gb_strand", str(real["strand"]))
         if real != rep:
             add_failure(out, "corr", "genbank location differs from gbCoords/gbStrand", dict(loc=_loc_text(l)), rep, real, confirmed=False)
         elif l[0] != "seg":
@@ -788,11 +792,11 @@ def correspondence(ctx):
         blocks = [[{x: w[x] for x in ("id", "seqid", "biotype", "strand", "attrs", "start", "stop")} for w in b if w is not None] for b in blocks]
         db = build_db(case, scratch, f"g{i}")
         reqs.append(("gffload", dict(blocks=blocks)))
-        reals.append(sorted(canon_rec(r, attrs=True) for r in raw_rows(db, "gff")))
+        reals.append(srt(canon_rec(r, attrs=True) for r in raw_rows(db, "gff")))
         cases.append(case)
     for case, real, rep in zip(cases, reals, ctx.driver.batch(reqs)):
         out["evaluations"] += 1
-        mod = sorted(canon_rec(r, attrs=True) for r in rep)
+        mod = srt(canon_rec(r, attrs=True) for r in rep)
         bump(out, "gffload_blocks", "split-id" if _ids_split_over_blocks(case) else "plain")
         if mod != real:
             add_failure(out, "corr", "loadGffBlocks model differs from load_annotations", dict(text=case["text"], lines_per_block=case["lines_per_block"]), mod, real, confirmed=False)
@@ -880,7 +884,7 @@ def _op_histories(ctx, out, rng, scratch):
         if "error" in rep:
             add_failure(out, "corr", "driver error in op history", dict(log=log), "reply", rep, confirmed=False)
             continue
-        canon = lambda dj: [dj["kind"], {t: sorted(canon_rec(r, attrs=True) for r in rows) for t, rows in dj["tables"].items()}]
+        canon = lambda dj: [dj["kind"], {t: srt(canon_rec(r, attrs=True) for r in rows) for t, rows in dj["tables"].items()}]
         a = [rep["err"], [canon(d) for d in rep["dbs"]]]
         b = [real["err"], [canon(d) for d in real["dbs"]]]
         if rep["err"] is not None:
